@@ -99,6 +99,15 @@ Inductive chain (t : table) : Z -> list Z -> Prop :=
 | chain_end p : spec_parent_of t p = None -> chain t p []
 | chain_cons p q l : spec_parent_of t p = Some q -> chain t q l -> chain t p (q :: l).
 
+(* the same chain, cut before the first process that was already met (the caller or an
+   earlier member): what a terminating parents() can return when PID reuse made the
+   parent links cyclic; [seen] = the processes met so far *)
+Inductive chain_cut (t : table) : list Z -> Z -> list Z -> Prop :=
+| cut_root seen p : spec_parent_of t p = None -> chain_cut t seen p []
+| cut_seen seen p q : spec_parent_of t p = Some q -> In q seen -> chain_cut t seen p []
+| cut_step seen p q l : spec_parent_of t p = Some q -> ~ In q seen ->
+                        chain_cut t (q :: seen) q l -> chain_cut t seen p (q :: l).
+
 Fixpoint spec_parents (t : table) (n : nat) (p : Z) : option (list Z) :=
   match spec_parent_of t p with
   | None => Some []
